@@ -772,7 +772,7 @@ def run(ctx):
     # (1) file store
     shutil.rmtree(os.path.join(ctx.dir, "fs"), ignore_errors=True)
     traces = []
-    for i in range(24 if q else 600):
+    for i in range(24 if q else 400):
         traces.append(fs_trace(ctx, rng, rng.randint(8, 40), "json" if i % 3 == 2 else "passthru", i))
     imp = ["Lib.Base", "Lib.PyStr", "Lib.Urlenc", "Model.FileStore"]
     ctx.coq_check_cases(imp, "list obs", "chk_trace", traces, shard=12, label="fstrace", diag="diag_trace")
@@ -788,7 +788,7 @@ def run(ctx):
         kinds = [({"jwt_access": False, "pin": "pwsalt"}, "context", True), ({"jwt_access": True, "pin": "pwsalt"}, "context", True),
                  ({"jwt_access": False, "pin": "key"}, "context", True), ({"jwt_access": False, "pin": "keyfile"}, "context", True),
                  ({"jwt_access": False, "pin": "pwsalt"}, "session_manager", False)]
-        reps = 2 if q else 30
+        reps = 2 if q else 20
         for kind in (kinds[0][0], kinds[1][0]):
             live += harvest_live(provider_history(ctx, rng, reb, kind, 0, True, "context", fixed=MATRIX))[:40]
         for kind, how, rich in kinds:
